@@ -22,7 +22,8 @@ def main():
     try:
         demo = subprocess.run(["/venv/bin/python", os.path.join(d, "demo.py")], capture_output=True, text=True,
                               env=dict(os.environ, PYTHONPATH="/repo/src"), timeout=300)
-        chk = subprocess.run(["./check", pid, "--tier", tier], cwd="/verif", capture_output=True, text=True, timeout=3000)
+        chk = subprocess.run(["./check", pid, "--tier", tier], cwd="/verif", capture_output=True, text=True, timeout=3000,
+                             env=dict(os.environ, VERIF_EVIDENCE_DIR="/tmp/verif-seed-evidence"))
     finally:
         subprocess.run(["git", "-C", "/repo", "checkout", "--", "."], check=True)
     lines = [l for l in chk.stdout.splitlines() if l.startswith(("VIOLATION", "OK ", "KNOWN-FINDING"))]
